@@ -536,11 +536,26 @@ fn declare(
 					param_types.len() as u32,
 					0,
 				);
+				// Constants and functions may share a name. The constants
+				// are declared first, but they are private, whereas a function
+				// may have to be found by the linker under its own name.
+				// Therefore the constant yields its name to the function.
+				let constant =
+					LLVMGetNamedGlobal(llvm.module, function_name.as_ptr());
+				if !constant.is_null()
+				{
+					LLVMSetValueName(constant, cstr!(""));
+				}
 				let function = LLVMAddFunction(
 					llvm.module,
 					function_name.as_ptr(),
 					function_type,
 				);
+				if !constant.is_null()
+				{
+					// The name is taken now, hence LLVM adds a suffix to it.
+					LLVMSetValueName(constant, function_name.as_ptr());
+				}
 				function
 			};
 
